@@ -15,20 +15,7 @@ def _effects(outcome):
     import re as _re
     body = outcome.split(' || ')[0]
     out = []
-    depth = 0
-    cur = ''
-    parts = []
-    for ch in body:                      # split at ' ; ' outside braces (nested loop tables contain ' ; ' too)
-        if ch in '{[(':
-            depth += 1
-        elif ch in '}])':
-            depth -= 1
-        cur += ch
-        if depth == 0 and cur.endswith(' ; '):
-            parts.append(cur[:-3])
-            cur = ''
-    if cur:
-        parts.append(cur)
+    parts = _split_top(body, ' ; ')         # outside brackets and string literals (nested loop tables contain ' ; ' too)
     for t in parts:
         t = t.strip()
         if t.startswith('call '):
@@ -181,7 +168,7 @@ def _escaping_touch(want, have):
     return None
 
 
-def _judge(want, have, closure=(), depth=0, conds=None):
+def _judge(want, have, closure=(), depth=0, conds=None, wconds=None):
     """two outcomes of the same case differ: is that a positively identified change of behaviour?
     -> ('bad', why) | ('undecided', why).  `closure`: variables of the enclosing function (state the function shares with its
     siblings: how it is represented -- a one-element list, a rebound nonlocal -- is not visible in one function alone)."""
@@ -197,8 +184,22 @@ def _judge(want, have, closure=(), depth=0, conds=None):
                 rw, rh = _parse_loop(lw), _parse_loop(lh)
                 # the tails of a nested loop list every local it assigns, read later or not: only the steps are compared
                 if rw is not None and rh is not None:
-                    rw = [(c, o.split(' || ')[0]) for c, o in rw]
-                    rh = [(c, o.split(' || ')[0]) for c, o in rh]
+                    # what the enclosing case assumes holds inside the loop too (atoms over loop-invariant inputs)
+                    touched = set()
+                    for lt in (lw, lh):
+                        for row in (_parse_loop(lt) or []):
+                            for k_, h_, t_ in _effects(row[1].split(' || ')[0]):
+                                if k_ in ('call', 'store', 'new'):
+                                    touched |= set(_re.findall(r'[A-Za-z_]\w*', t_))
+
+                    def ctx(outer, c):
+                        # only atoms over things the loop neither stores into nor hands to a call
+                        d = {k: v for k, v in (outer or {}).items()
+                             if '_acc_' not in k and '<' not in k.replace(' < ', '') and not (set(_re.findall(r'[A-Za-z_]\w*', k)) & touched)}
+                        d.update(c)
+                        return d
+                    rw = [(ctx(wconds, c), o.split(' || ')[0]) for c, o in rw]
+                    rh = [(ctx(conds, c), o.split(' || ')[0]) for c, o in rh]
                 if rw is None or rh is None or lw.split('{')[0] != lh.split('{')[0]:
                     return 'undecided', 'the outcomes differ inside a nested loop that cannot be compared row by row'
                 st, det = dtable.check_rows(rh, rw)
@@ -212,7 +213,33 @@ def _judge(want, have, closure=(), depth=0, conds=None):
             return 'undecided', 'the nested loops have the same rows in another spelling'
         if w2 == h2:
             return 'undecided', 'the outcomes differ inside a nested loop whose body is compared as text'
+        if wl != hl:
+            return 'undecided', 'the nested loops differ and so do the steps around them: steps may have moved between a loop and its surroundings'
         want, have = w2, h2
+    if conds is not None and wconds is not None:
+        # the reviewed case assumes a predicate g(args) that this path never evaluates, while this path assumes another
+        # predicate f(args) over the same arguments: whether both can hold together (mutually exclusive predicates tested in
+        # another order) is not visible in the table
+        def preds(cs):
+            out = []
+            for k, v in cs.items():
+                if v is not True:
+                    continue
+                kk = k[1:-1] if k.startswith('<') and k.endswith('>') else k
+                kk = _re.sub(r'#\d+$', '', kk)
+                m = _re.fullmatch(r'([A-Za-z_][\w.]*(?:\([^()]*\))?(?:\.\w+)*)\((.*)\)', kk)
+                if m:
+                    out.append((m.group(1), m.group(2), k))
+            return out
+        hp, wp = preds(conds), preds(wconds)
+        for wf, wa, wk in wp:
+            if wk in conds:
+                continue
+            for hf, ha, hk in hp:
+                if hk in wconds:
+                    continue
+                if (wf == hf) != (wa == ha):
+                    return 'undecided', 'the reviewed case assumes `%s`, this path assumes `%s` and never evaluates the former: alternatives that exclude each other may be tried in another order' % (wk[:80], hk[:80])
     we, he = _visible(_effects(want)), _visible(_effects(have))
     esc = _escaping_touch(want, have)
     if esc is not None:
@@ -253,6 +280,11 @@ def _judge(want, have, closure=(), depth=0, conds=None):
             return 'undecided', 'the state shared with the enclosing function is stored differently (%s instead of %s): not decidable from this function alone' % (extra or '-', missing or '-')
         if any(k == 'call' and h in ('map', 'filter', 'list', 'sorted', 'any', 'all', 'sum', 'some', 'zip', 'enumerate', 'reversed', 'tuple', 'dict', 'set') for k, h in missing + extra):
             return 'undecided', 'an iteration idiom (map / filter / comprehension / loop) is spelled differently'
+        if depth > 0 and any(k == 'exit' and h == 'break' for k, h in missing + extra) and any(k == 'exit' and h in ('ret', 'raise') for k, h in missing + extra):
+            return 'undecided', 'a nested loop is left by break on one side and by return / raise on the other: the steps after the loop are not part of its rows'
+        if missing + extra and all(k == 'exit' for k, _ in missing + extra) and {h for _, h in missing + extra} <= {'next', 'break', 'ret'} \
+                and [x for x in wsk if x[0] != 'exit'] == [x for x in hsk if x[0] != 'exit'] and ('ret None' in want + have or 'break' in want + have):
+            return 'undecided', 'same calls and stores, the loop is continued / left / the function returns None in another way: loop exits may have been restructured'
         if any(k in ('store', 'call') for k, _ in missing + extra) or (missing + extra and all(k == 'exit' for k, _ in missing + extra)):
             return 'bad', 'the externally visible steps differ (not in the reviewed behaviour: %s; missing: %s)' % (extra or '-', missing or '-')
         return 'undecided', 'different steps on local objects'
@@ -261,7 +293,7 @@ def _judge(want, have, closure=(), depth=0, conds=None):
         if t1 != t2:
             if _re.search(r'obj\d+', t1 + t2) or 'loop ' in t1:
                 return 'undecided', 'same visible steps; an operand built from local objects is spelled differently (%s)' % t2[:120]
-            if _re.search(r'_h\d+_', t1 + t2) and 'LOOP' in want + have:
+            if _re.search(r'_h\d*_', t1 + t2) and 'LOOP' in want + have:
                 return 'undecided', 'same visible steps; an operand is a value computed by a loop (compared as text only): %s' % t2[:120]
             return 'bad', 'same steps, different operand: `%s` instead of `%s`' % (t2[:160], t1[:160])
     if wt != ht:
@@ -338,7 +370,7 @@ def check_table(p, res, rname, fq, message, detectors=()):
         else:
             for wc, wo, hc, ho in det[:2]:
                 when = ' and '.join(('%s' if v else 'not (%s)') % k for k, v in sorted(hc.items())) or 'always'
-                kind, why = _judge(wo, ho, closure, 0, hc)
+                kind, why = _judge(wo, ho, closure, 0, hc, wc)
                 if kind == 'bad' and coupled and ('_fin_' in wo + ho or '_acc_' in wo + ho or any('_fin_' in k or '_acc_' in k for k in list(wc) + list(hc))):
                     kind, why = 'undecided', 'another segment of the loop can no longer be compared, and this case depends on the loop-carried values'
                 if kind == 'bad':
